@@ -6,7 +6,7 @@ leaves the client awaited and soft-held; the +! hard hold is taken and released 
 no-account <-> account transition; a refusal always reaches the kill.  Not decided:
 arithmetic on counter values over histories."""
 from ..facts import AnalysisBroken
-from ..model import sx, walk, is_var, is_field, const_of, vars_in
+from ..model import sx, walk, is_var, is_field, const_of, vars_in, root_var
 from .. import rules, core, holds
 
 EXPLANATION = (
@@ -372,7 +372,40 @@ def release_recognised(P, R, cl, rule='C02.GRD.6'):
     R.floor(rule, 1)
 
 
+def startup_before_input(P, R, rule='C02.WIRE.2'):
+    """The set of data a client must bring is computed from what the modules asked for, once they are all loaded: by
+    the start-up callback.  Input may already be waiting when the event loop starts, so the callback is scheduled in the
+    way that runs before the first poll: event_base_once() with a zero delay (libevent activates such an event at once)
+    or event_active().  A timer added with event_add()/evtimer_add() is served only after the first poll has delivered
+    the waiting input to the reader - which then judges clients against an empty requirement and accepts them bare."""
+    calc = P.need_fn('calc_iauth_flags')
+    cbs = {c.fn.key: c.fn for c in P.callers(calc, may=True)}
+    n = 0
+    for f in P.fns.values():
+        for s in f.calls():
+            fa = [a for a in s.ev['args'] if isinstance(a, dict) and a.get('k') == 'func' and P.direct_target(f, a['name']) is not None and P.direct_target(f, a['name']).key in cbs]
+            if not fa:
+                continue
+            n += 1
+            callee = s.ev.get('callee')
+            ok = callee in ('event_base_once', 'event_active')
+            if callee == 'event_base_once':
+                # the delay is a zeroed timeval
+                tv = s.ev['args'][-1]
+                tvn = tv['e']['name'] if isinstance(tv, dict) and tv.get('k') == 'un' and tv.get('op') == '&' and is_var(tv.get('e')) else None
+                zero = tvn is not None
+                if zero:
+                    sets = [t for t in f.stores() if t.ev['k'] == 'store' and root_var(t.ev['lhs']) is not None and root_var(t.ev['lhs'])['name'] == tvn]
+                    zero = bool(sets) and all(const_of(t.ev.get('rhs')) == 0 for t in sets)
+                ok = zero
+            R.ob(rule, ok, s, 'the start-up callback %s (it computes what a client must bring) is scheduled to run before the first poll (%s)' % (fa[0]['name'], callee), key='startup-scheduled')
+    # ... and nothing else schedules or adds the reader before the loop in a way that could run first: the reader is an
+    # ordinary read event
+    R.floor(rule, 1, 'scheduling of the start-up callback')
+
+
 def run(P, R, tier):
+    startup_before_input(P, R)
     gate_guard(P, R)
     required_mask(P, R)
     flag_writers(P, R)
